@@ -507,11 +507,26 @@ type GatherArgs struct {
 // Every work-item writes only its own output element (race free); with the
 // buffers spread over several GPUs most reads and many writes are remote.
 func Gather(wgSize int) (*insts.KernelCodeObject, []string, error) {
+	return Gather2D(wgSize, 1, 0)
+}
+
+// Gather2D is Gather launched on a two-dimensional grid of width `width`
+// work-items with work-groups of wgX x wgY work-items:
+// gid = (wg_y*wgY + tid_y)*width + wg_x*wgX + tid_x. wgY = 1 gives the
+// one-dimensional kernel (width unused).
+func Gather2D(wgX, wgY, width int) (*insts.KernelCodeObject, []string, error) {
 	p := New()
 	p.SLoadDwordX4(8, 0, 0)   // s[8:9] = in, s[10:11] = out
 	p.SLoadDwordX4(20, 0, 16) // s20 = mask, s21 = K, s22 = C
-	p.SMulI32(S(12), S(2), p.Lit(uint32(wgSize)))
-	p.VAddU32(3, S(12), 0) // gid
+	p.SMulI32(S(12), S(2), p.Lit(uint32(wgX)))
+	p.VAddU32(3, S(12), 0) // gx (= gid in one dimension)
+	if wgY > 1 {
+		p.SMulI32(S(13), S(3), p.Lit(uint32(wgY)))
+		p.VAddU32(2, S(13), 1) // gy
+		p.SMovB32(S(14), p.Lit(uint32(width)))
+		p.VMulLoU32(2, V(2), S(14))
+		p.VAddU32(3, V(2), 3) // gid
+	}
 	p.SWaitcnt(15, 0)
 	p.VMulLoU32(4, V(3), S(21))
 	p.VAddU32(4, S(22), 4)
@@ -539,7 +554,11 @@ func Gather(wgSize int) (*insts.KernelCodeObject, []string, error) {
 	p.FlatStoreDword(7, 18)
 	p.SWaitcnt(0, 0)
 	p.SEndpgm()
-	co, err := p.CodeObject(KernelSpec{KernargBytes: 32, SGPRs: 32, VGPRs: 24, WGIDX: true})
+	spec := KernelSpec{KernargBytes: 32, SGPRs: 32, VGPRs: 24, WGIDX: true}
+	if wgY > 1 {
+		spec.WGIDY, spec.VGPRWorkItem = true, 1
+	}
+	co, err := p.CodeObject(spec)
 	return co, p.Listing(), err
 }
 
